@@ -2,7 +2,7 @@
    signature so that a single small OCaml driver (or a generated cases.v) can run
    them:  dispatch id scalars coords indices : option (list Q). *)
 From Coq Require Import List ZArith QArith Bool.
-Require Import Cox.Num.Ops Cox.Geo.Vec Cox.Model.Mesh Cox.Model.Polygon Cox.Model.Inside Cox.Model.Curved Cox.Model.Structure Cox.Model.Balls Cox.Model.Simple Cox.Model.Roundtrip Cox.Model.MeshIO.
+Require Import Cox.Num.Ops Cox.Geo.Vec Cox.Model.Mesh Cox.Model.Polygon Cox.Model.Inside Cox.Model.Curved Cox.Model.Structure Cox.Model.Balls Cox.Model.Simple Cox.Model.Roundtrip Cox.Model.MeshIO Cox.Model.Families Cox.Num.Qsqrt5 Cox.Gen.Planes.
 Import ListNotations.
 
 Fixpoint group3 (l : list Q) : list (vec3 Q) :=
@@ -44,6 +44,11 @@ Section Entries.
     [b2q (closedb tr); cone0 O TT]
       ++ [spec_centroid O 0 TT; spec_centroid O 1 TT; spec_centroid O 2 TT]
       ++ map (fun ij => spec_inertia O (fst ij) (snd ij) TT) ij6.
+
+  (* 6: volume and centroid only (no closedness test: for large meshes whose closedness is checked elsewhere) *)
+  Definition e_mesh_moments (qs : list Q) (idx : list (list nat)) : list Q :=
+    let V := group3 qs in let TT := resolve O V (map tri_of idx) in
+    [1; cone0 O TT; spec_centroid O 0 TT; spec_centroid O 1 TT; spec_centroid O 2 TT].
 
   (* 3: exact centroid of a planar face given as coplanar triangles: weights N_t . N_ref *)
   Definition e_face_centroid (qs : list Q) (idx : list (list nat)) : list Q :=
@@ -219,6 +224,24 @@ Section Entries.
            | _ => [0]
            end
     end.
+
+  (* 50: truncation families. sc = [family 323/423/523; a; c] (a, c dyadic rationals) ->
+     [in_domain; n; then per exact vertex x y z as (rational, sqrt5) pairs: 6 numbers] *)
+  Definition e_family (sc : list Q) : list Q :=
+    let fam := Qnum (nth 0 sc 0) in
+    let a := s5_of_Q (nth 1 sc 0) in let c := s5_of_Q (nth 2 sc 0) in
+    let pick := match fam with
+                | 323%Z => Some (planes_323, types_323, b_323, domain_323)
+                | 423%Z => Some (planes_423, types_423, b_423, domain_423)
+                | 523%Z => Some (planes_523, types_523, b_523, domain_523)
+                | _ => None end in
+    match pick with
+    | None => []
+    | Some (pl, ty, b, dom) =>
+      let vs := exact_vertices S5ops (combine pl ty) (a, b, c) in
+      [b2q (in_domain S5ops dom a c); n2q (length vs)]
+        ++ flat_map (fun v => [ra (vx v); rb (vx v); ra (vy v); rb (vy v); ra (vz v); rb (vz v)]) vs
+    end.
 End Entries.
 
 Definition dispatch (f : nat) (sc qs : list Q) (idx : list (list nat)) : option (list Q) :=
@@ -228,6 +251,7 @@ Definition dispatch (f : nat) (sc qs : list Q) (idx : list (list nat)) : option 
   | 3 => Some (e_face_centroid qs idx)
   | 4 => Some (e_poly_code sc qs idx)
   | 5 => Some (e_fans idx)
+  | 6 => Some (e_mesh_moments qs idx)
   | 10 => Some (e_polygon sc qs)
   | 11 => Some (e_polygon_planar qs)
   | 12 => Some (e_poly_faces qs idx)
@@ -243,6 +267,7 @@ Definition dispatch (f : nat) (sc qs : list Q) (idx : list (list nat)) : option 
   | 45 => Some (e_balls sc qs idx)
   | 46 => Some (e_circum sc qs)
   | 47 => Some (e_simple qs)
+  | 50 => Some (e_family sc)
   | 60 => Some (e_gsd_dispatch sc)
   | 70 => Some (e_meshio sc idx)
   | _ => None
